@@ -59,7 +59,8 @@ TARGET_HOST = {"ip": "127.0.0.1", "name": "localhost", "othername": "evil.exampl
 ISSUER_TAG = {"self": "self-signed", "forged-A": "forged-issuer"}
 
 DEFAULTS = dict(peer="openssl", garbage=0, verify="off", trust="none", icert=None, imin=0, tlscfg="enabled",
-                pcert=None, pauth="none", pverify="off", pmax=13, target="ip", api="async", send="late", lvl0=0)
+                pcert=None, pauth="none", pverify="off", pmax=13, target="ip", api="async", send="late", lvl0=0,
+                life="fresh")
 
 
 def mk(entry, **kw):
@@ -133,6 +134,11 @@ def expect(c):
                 eithers.append("own-server-cert-" + c["icert"])
         if c["imin"] == 13 and c["pmax"] == 12:
             eithers.append("configured-min-above-peer-max")
+    if c["life"] == "retry-missing":
+        # iora's own certificate/key files are missing at the first start() AND at the retry: the
+        # transport should keep refusing to start; whatever it does, every must-reject reason above
+        # still holds (a retried start() may not end up with a less strict context)
+        eithers.append("own-cert-files-still-missing")
     if c["tlscfg"] != "enabled":
         # TLS is requested for the session (connect(..., TlsMode::Client) / addListener(..., TlsMode::Server))
         # but the configuration yields no TLS context for that role: enabled=false, or enabled=true with
@@ -205,6 +211,19 @@ def matrix():
             for peer in ("openssl", "plaintext"):
                 add(mk(E, tlscfg=tlscfg, peer=peer, verify="on", trust="ca-right", api=api, send=send))
 
+    # lifecycle: start() failed once at the client cert/key load and was retried (files provisioned late /
+    # still missing), and stop()+start(); crossed with the must-reject server-certificate classes and the floor
+    E = "transport-client"
+    for life in ("retry-provisioned", "retry-missing", "restart"):
+        for pcert, target in (("valid", "name"), ("wrongca", "ip"), ("selfsigned", "ip"), ("expired", "name"), ("wrongname", "name")):
+            api, send = apis[k % 3]; k += 1
+            add(mk(E, life=life, verify="on", trust="ca-right", icert="trusted", pauth="request", pcert=pcert, target=target,
+                   api=api, send=send))
+        for pmax in (10, 11):
+            api, send = apis[k % 3]; k += 1
+            add(mk(E, life=life, verify="on", trust="ca-right", icert="trusted", pmax=pmax, api=api, send=send))
+        add(mk(E, life=life, peer="plaintext", verify="on", trust="ca-right", icert="trusted"))
+
     # ---- HTTP client
     E = "http-client"
     for trust in ("ca-right", "ca-wrong", "none", "default-right", "ca-wrong+default-right"):
@@ -259,6 +278,17 @@ def matrix():
                 add(mk(E, tlscfg=tlscfg, peer=peer, verify="off", send=send))
         add(mk(E, tlscfg=tlscfg, peer="plaintext", verify="on", trust="ca-right", pcert="none", send="early"))
 
+    # lifecycle on the server side: the server certificate/key files are missing at the first start()
+    E = "transport-server"
+    for life in ("retry-provisioned", "retry-missing", "restart"):
+        for pcert in ("trusted", "none", "untrusted", "expired"):
+            send = sends[k % 2]; k += 1
+            add(mk(E, life=life, verify="on", trust="ca-right", pcert=pcert, send=send))
+        for pmax in (10, 11):
+            send = sends[k % 2]; k += 1
+            add(mk(E, life=life, verify="off", pmax=pmax, send=send))
+        add(mk(E, life=life, peer="plaintext", verify="off", send="early"))
+
     # ---- HTTP server
     E = "http-server"
     for trust in ("ca-right", "ca-wrong", "none"):
@@ -307,7 +337,8 @@ def reference_cells():
 # ----------------------------------------------------------------- cell -> harness input line
 def harness_line(c, cid):
     f = dict(id=cid, entry=c["entry"], peer=c["peer"], garbage=c["garbage"], verify=c["verify"], imin=c["imin"],
-             tlscfg=c["tlscfg"], pmax=c["pmax"], lvl0=c["lvl0"], host=TARGET_HOST[c["target"]], api=c["api"], send=c["send"])
+             tlscfg=c["tlscfg"], pmax=c["pmax"], lvl0=c["lvl0"], host=TARGET_HOST[c["target"]], api=c["api"], send=c["send"],
+             life=c.get("life", "fresh"))
     t = TRUST[c["trust"]]
     f.update(cafile=t["cafile"], capath=t["capath"], defstore=t["defstore"])
     if c["entry"] in CLIENT_ENTRIES or c["entry"] == "raw-raw":
@@ -376,20 +407,23 @@ def judge(c, o):
         return [], "harness error: " + o["harness_error"], []
     if o.get("watchdog"):
         return [], "cell watchdog fired", []
+    if c["life"].startswith("retry-") and o.get("first_start_ok") is not False:
+        return [], "lifecycle cell: the first start() did not fail at the certificate/key load (harness defect)", []
     adm = admitted(c, o)
     p, r = o.get("peer", {}), o.get("relay", {})
     client = e in CLIENT_ENTRIES
+    el = e if c["life"] == "fresh" else "%s:life-%s" % (e, c["life"])     # entry label used in keys
 
     # ---- universal clause 1: no application byte in clear, whatever the configuration
     iora_dir = "c2s" if client else "s2c"
     iora_tok = "ctok" if client else "stok"
     if r.get("%s_has_%s" % (iora_dir, iora_tok)):
         if c["tlscfg"] != "enabled":
-            key = "C07:cleartext:%s:tls-requested-config-%s:token-on-wire" % (e, c["tlscfg"])
+            key = "C07:cleartext:%s:tls-requested-config-%s:token-on-wire" % (el, c["tlscfg"])
         elif c["peer"] != "openssl":
-            key = "C07:cleartext:%s:%s-peer:token-on-wire" % (e, c["peer"])
+            key = "C07:cleartext:%s:%s-peer:token-on-wire" % (el, c["peer"])
         else:
-            key = "C07:cleartext:%s:token-on-wire" % e
+            key = "C07:cleartext:%s:token-on-wire" % el
         viols.append((key, "iora's application token is visible in clear in the bytes iora put on the wire "
                            "(session requested with TLS; send=%s api=%s)" % (c["send"], c["api"])))
     if c["peer"] == "openssl" and r.get("%s_has_%s" % ("s2c" if client else "c2s", "stok" if client else "ctok")):
@@ -397,15 +431,15 @@ def judge(c, o):
     # ---- universal clause 2: nothing below TLS 1.2
     mv = int(p.get("min_version", "0x0"), 16)
     if c["peer"] == "openssl" and p.get("hs_ok", 0) > 0 and 0 < mv < 0x0303:
-        viols.append(("C07:floor:%s:%s-negotiated" % (e, VERSIONS.get(mv, hex(mv))),
+        viols.append(("C07:floor:%s:%s-negotiated" % (el, VERSIONS.get(mv, hex(mv))),
                       "handshake completed at %s (configured min=%s, peer ceiling=%s)" % (p.get("version"), c["imin"], c["pmax"])))
     # ---- the matrix verdict
     if verdict == "reject" and adm:
         if reasons == ["floor"]:
             if not any(k.startswith("C07:floor:") for k, _ in viols):
-                viols.append(("C07:floor:%s:ceiling-below-1.2:admitted" % e, "; ".join(adm)))
+                viols.append(("C07:floor:%s:ceiling-below-1.2:admitted" % el, "; ".join(adm)))
         else:
-            viols.append(("C07:%s:%s:admitted" % (e, "+".join(reasons)), "must-reject cell admitted: " + "; ".join(adm)))
+            viols.append(("C07:%s:%s:admitted" % (el, "+".join(reasons)), "must-reject cell admitted: " + "; ".join(adm)))
     retry = None
     if verdict == "accept":
         if e == "transport-client":
@@ -422,9 +456,9 @@ def judge(c, o):
             # a refusal that is only a deadline (HttpClient caps the TLS connect to a loopback address at
             # 200 ms; this machine may be heavily loaded) is a watchdog, not a logical refusal
             if not _is_deadline(o):
-                viols.append(("C07:%s:%s:rejected" % (e, accept_class(c)), "must-accept cell did not complete: " + why))
+                viols.append(("C07:%s:%s:rejected" % (el, accept_class(c)), "must-accept cell did not complete: " + why))
         elif client and c["pauth"] != "none" and c["icert"] == "trusted" and not (p.get("got_cert") and p.get("verify") == 0):
-            viols.append(("C07:%s:client-cert-configured:not-presented" % e,
+            viols.append(("C07:%s:client-cert-configured:not-presented" % el,
                           "client certificate configured, the peer asked for one, none (valid) arrived: got_cert=%s verify=%s"
                           % (p.get("got_cert"), p.get("verify"))))
     # ---- coverage counters (what the monitors actually saw)
@@ -451,6 +485,13 @@ def judge(c, o):
     if r.get("conns", 0) > 0: cnt.append("relay_connections")
     if c["send"] == "early": cnt.append("early_send_cells")
     if c["tlscfg"] != "enabled": cnt.append("tls_requested_not_configured_cells")
+    if c["life"] != "fresh":
+        cnt.append("lifecycle_cells[%s]" % c["life"])
+        if c["life"].startswith("retry-"):
+            if o.get("first_start_ok") is False: cnt.append("lifecycle_first_start_failed_at_cert_load")
+            if c["life"] == "retry-provisioned" and o.get("start_ok"): cnt.append("lifecycle_retry_started_after_provisioning")
+            if c["life"] == "retry-missing" and o.get("start_ok") is False: cnt.append("lifecycle_retry_kept_failing")
+        elif o.get("first_start_ok") and o.get("start_ok"): cnt.append("lifecycle_restart_started_twice")
     return viols, retry, cnt
 
 
@@ -506,11 +547,11 @@ def _coords(c):
 
 def signature(c, verdict, reasons, eithers, adm):
     return "|".join([c["entry"], verdict, "+".join(reasons) or "+".join(eithers) or accept_class(c), c["peer"],
-                     str(c["garbage"]) if c["peer"] == "garbage" else "", c["api"], c["send"], "adm" if adm else "ref"])
+                     str(c["garbage"]) if c["peer"] == "garbage" else "", c["api"], c["send"], c["life"], "adm" if adm else "ref"])
 
 
 # ------------------------------------------------------------------------ quick covering subset
-COORDS = ("peer", "garbage", "verify", "trust", "icert", "imin", "tlscfg", "pcert", "pauth", "pverify", "pmax", "target", "api", "send")
+COORDS = ("peer", "garbage", "verify", "trust", "icert", "imin", "tlscfg", "pcert", "pauth", "pverify", "pmax", "target", "api", "send", "life")
 
 
 def covering_subset(cells, rng, target):
@@ -526,6 +567,12 @@ def covering_subset(cells, rng, target):
             # two sides and a TLS 1.0 / 1.1 session
             if reasons == ["floor"] and c["imin"] * 1 <= c["pmax"] and c["imin"] < 12:
                 f.add((c["entry"], "floor-by-clamp-only", c["pmax"]))
+            # every non-fresh lifecycle meets an authentication reject class, a floor cell and a hostile peer
+            if c["life"] != "fresh":
+                kind = "floor" if reasons == ["floor"] else ("peer" if c["peer"] != "openssl" else "auth")
+                f.add((c["entry"], "life-reject", c["life"], kind))
+        if v == "accept" and c["life"] != "fresh":
+            f.add((c["entry"], "life-accept", c["life"]))
         elif v == "accept":
             f.add((c["entry"], "accept", c["verify"], c["trust"] if c["verify"] == "on" else ""))
         else:
@@ -724,7 +771,7 @@ def run(ctx):
         cells = full
         ctx.exhaustive = True
     else:
-        cells = covering_subset(full, random.Random(ctx.seed), 120)
+        cells = covering_subset(full, random.Random(ctx.seed), 130)
         ctx.exhaustive = False
     refs = reference_cells()
     _execute(ctx, bins, pki, cells, refs, 20 if thorough else 10)
@@ -751,7 +798,9 @@ def run(ctx):
                     "floor_cells_refused", "floor_observable_tls11_reference", "floor_observable_tls10_reference",
                     "hostile_peer_cells_refused", "relay_tls_records_seen", "client_cert_seen_by_peer",
                     "config_failfast_seen", "early_send_cells", "reference_cells", "handshakes_completed",
-                    "negotiated_tls1.2", "negotiated_tls1.3")
+                    "negotiated_tls1.2", "negotiated_tls1.3", "tls_requested_not_configured_cells",
+                    "lifecycle_first_start_failed_at_cert_load", "lifecycle_retry_started_after_provisioning",
+                    "lifecycle_retry_kept_failing", "lifecycle_restart_started_twice")
 
 
 def replay(ctx, path):
